@@ -7,9 +7,10 @@ its contents and its line-wise flag without disturbing the registers.
 Oracle: `Ref8` -- an independent Python reference of the operator / insert / put / register
 semantics on top of the motion reference of C07 (region = exactly the span between cursor and
 motion target; exclusive, inclusive for f F t T e E %, line-wise for line motions).
-Correspondence: the extracted register model (coq/RegDefs.v) replays the register traffic of
-every program (which text was put into which register with which flag) and must agree with the
-revealed registers; the motion targets used by the operators come from the C07 model.
+Correspondence: the extracted Coq interpreter (coq/ViDefs.v exec_prog, `op` request of ocaml/drv_vi.ml)
+runs every program and must show the same text, cursor and registers as the binary; in addition the
+extracted register model (coq/RegDefs.v) replays the register traffic of every program (which text
+was put into which register with which flag) and must agree with the revealed registers.
 """
 import json, os, glob
 import vlib
@@ -815,7 +816,7 @@ def run(ctx):
     exe = vlib.build_vi()
     model = ctx.model('vi')
     res.rule = ('one case = (text, window rows, program of motions/operators/inserts/puts); compared: written text, marker position, '
-                'seven revealed registers (unnamed a b 1 2 3 4) incl. their line-wise flag; non-trivial = the program changes the '
+                'thirteen revealed registers (unnamed a b c 1..9) incl. their line-wise flag, against the reference Ref8 and against the extracted Coq interpreter; non-trivial = the program changes the '
                 'text or a register; distinct = distinct (text, rows, keys)')
     cases = []
     if ctx.replay:
